@@ -84,4 +84,27 @@ def nsa (c impl : List String) : Option Verdict :=
              "real rtnetlink dumps: AddressesByIndex / LoopbackRoutes did not report the addresses of vf0 (with Deprecated for preferred_lft 0 and ValidForever for an unlimited lifetime, no IPv4) and the two loopback routes" }
   | _ => none
 
+/-- `nsb ran what | …`: what the kernel itself hands the real addresser for an address with a peer
+    (`ip addr add A peer B/64`), an IPv4-mapped address on the interface and an IPv4-mapped route
+    on the loopback interface (C13–C15; findings F-27, F-28) -/
+def nsb (c impl : List String) : Option Verdict :=
+  match c with
+  | ["0"] => some { model := "skip", oracle := true, nontrivial := false }
+  | ["1", "peer"] =>
+    some { model := "own", oracle := impl == ["own"], nontrivial := true,
+           note := if impl == ["own"] then "" else if impl == ["peer"] then
+             "class=peer-address-as-own real rtnetlink dump of `ip addr add 2001:db8:5::1 peer 2001:db8:6::2/64 dev vf0`: AddressesByIndex reports the peer's address 2001:db8:6::2 as the interface's, not 2001:db8:5::1"
+           else "real rtnetlink dump of an address with a peer: AddressesByIndex must report the interface's own address" }
+  | ["1", "mapaddr"] =>
+    some { model := "ok", oracle := impl == ["ok"], nontrivial := true,
+           note := if impl == ["ok"] then "" else if impl == ["panic"] then
+             "class=v4mapped-address-panics real rtnetlink dump with `ip -6 addr add ::ffff:192.0.2.9/128 dev vf0`: AddressesByIndex panics"
+           else "real rtnetlink dump with an IPv4-mapped address: AddressesByIndex must still report the IPv6 addresses of the interface" }
+  | ["1", "maproute"] =>
+    some { model := "ok", oracle := impl == ["ok"], nontrivial := true,
+           note := if impl == ["ok"] then "" else if impl == ["panic"] then
+             "class=v4mapped-route-panics real rtnetlink dump with `ip -6 route add unreachable ::ffff:0.0.0.0/96 dev lo`: LoopbackRoutes panics"
+           else "real rtnetlink dump with an IPv4-mapped loopback route: LoopbackRoutes must still report the IPv6 routes" }
+  | _ => none
+
 end Driver.Netns
